@@ -253,6 +253,13 @@ def zero_init(ctx, rule="R15.8"):
                         ctx.violation(rule, site, "one allocation is bound to several arrays (%s): they share their memory" % ", ".join(t.id for t in st.targets), "shared-alloc:" + ",".join(sorted(t.id for t in st.targets)))
                     for t in st.targets:
                         alloc[t.id] = ast.unparse(st.value.func)
+            mv_params = {p_["name"] for p_ in info.get("params", []) if p_.get("type") and "[" in p_["type"]}
+            for st in ast.walk(fn):
+                if isinstance(st, ast.Assign) and len(st.targets) == 1 and isinstance(st.targets[0], ast.Name) and st.targets[0].id in mv_locals and isinstance(st.value, ast.Name) \
+                        and st.value.id in (mv_locals | mv_params):
+                    n += 1
+                    ctx.violation(rule, site, "array `%s` is bound to the memory of `%s` (a memoryview assignment does not copy): writes to one change the other" % (st.targets[0].id, st.value.id),
+                                  "alias:%s:%s" % (st.targets[0].id, st.value.id))
             summed = sorted({PR.base_name(a.target) for a in ast.walk(fn) if isinstance(a, ast.AugAssign) and isinstance(a.op, (ast.Add, ast.Sub)) and isinstance(a.target, ast.Subscript)
                              and PR.base_name(a.target) in mv_locals})
             for a in summed:
@@ -403,6 +410,12 @@ def mode_terms(ctx, rule="R15.13"):
         acc = [a for a in ast.walk(fn) if isinstance(a, (ast.AugAssign, ast.Assign)) and ast.unparse(a.target if isinstance(a, ast.AugAssign) else a.targets[0]) == target
                and not (isinstance(a, ast.Assign) and isinstance(a.value, ast.Constant))]
         if not acc:
+            base_t = target.split("[")[0]
+            other = sorted({ast.unparse(a.target) for a in ast.walk(fn) if isinstance(a, ast.AugAssign) and isinstance(a.target, ast.Subscript) and PR.base_name(a.target) == base_t})
+            if other:
+                n += 1
+                ctx.violation(rule, site, "the mode contributions are accumulated into %s, the output layout is %s (components x points as the Python side reads it)" % (other, target), "output-index")
+                continue
             raise AnalysisError("anchor vanished: accumulation into %s in %s" % (target, site))
         if len(acc) > 1:
             # unrolled / duplicated summation: what one mode adds is no longer one statement - not decided here, the loop rules still run
@@ -448,6 +461,12 @@ def accumulator_complete(ctx, rule="R15.14"):
                                and any(isinstance(x, ast.Name) and x.id == s_ and isinstance(x.ctx, ast.Load) for x in ast.walk(st))]
                     ctx.check(not readers, rule, site, "`%s` is summed in `for %s` and read only after that loop%s" % (s_, ast.unparse(lp.target), (": used inside it by `%s`" % norm_stmt(readers[0])[:60]) if readers else ""),
                               "partial-sum:%s:%s" % (s_, ast.unparse(lp.target)))
+                for s_ in sorted({a.target.id for a in augs}):
+                    for asg in [x for x in ast.walk(fn) if isinstance(x, ast.Assign) and len(x.targets) == 1 and isinstance(x.targets[0], ast.Name) and x.targets[0].id == s_]:
+                        if not (isinstance(asg.value, ast.Constant) or (isinstance(asg.value, ast.UnaryOp) and isinstance(asg.value.operand, ast.Constant))):
+                            n += 1
+                            ctx.violation(rule, site, "the sum `%s` is re-assigned by `%s` (besides its constant reset): the value used afterwards is not the sum the loop built"
+                                          % (s_, norm_stmt(asg)[:70]), "rewritten-sum:%s" % s_)
                 # `+=` that became `=`
                 owner, block = _block_of(fn, lp)
                 if block is None:
@@ -485,7 +504,54 @@ def build_independent(ctx, rule="R15.15"):
     ctx.floor(rule, "kernel functions checked for build-dependent branches", n, 15)
 
 
+UNSIGNED = ("size_t", "unsigned", "np.uint", "uint")
+
+
+def kernel_shape(ctx, rule="R15.18"):
+    """Shape of the kernel functions: a `def` kernel has one exit, its final `return` (an early return - a fast path, a degenerate-size
+    shortcut - is a second implementation of the same sums that nothing keeps equal to the loops); integer locals are signed (an unsigned
+    bound such as `f.shape[0] - 1` wraps around for an empty axis); a scalar that holds an element of a typed array has that array's
+    element type (a pair count read from an int64 array into a 32-bit int overflows in `cnt**2`); no raw pointers."""
+    n = 0
+    for rel in KERNEL_FILES:
+        mod = ctx.prog.mod(rel)
+        for name, fn in sorted(mod.functions.items()):
+            info = mod.pyx.functions.get(name)
+            if info is None:
+                continue
+            site = "%s::%s" % (rel, name)
+            types = dict(info.get("locals", {}))
+            ptypes = {p_["name"]: p_.get("type") for p_ in info.get("params", [])}
+            if info.get("kind") == "def" and name != "set_num_threads":
+                rets = [r for r in ast.walk(fn) if isinstance(r, ast.Return)]
+                n += 1
+                ctx.check(len(rets) == 1 and fn.body and fn.body[-1] is rets[0], rule, site, "single exit: %d return statement(s), the last statement %s one" % (len(rets), "is" if (rets and fn.body[-1] is rets[-1]) else "is not"), "single-exit")
+            for k, t in sorted(types.items()):
+                if not t:
+                    continue
+                n += 1
+                ctx.check(not any(u in t for u in UNSIGNED) and "*" not in t, rule, site, "local %s is declared `%s` (signed integers / doubles / memoryviews only)" % (k, t), "ctype-kind:%s" % k)
+            # element type agreement
+            for st in ast.walk(fn):
+                if isinstance(st, ast.Assign) and len(st.targets) == 1 and isinstance(st.targets[0], ast.Name) and st.targets[0].id in types:
+                    lt = (types[st.targets[0].id] or "").replace("const ", "").strip()
+                    if "[" in lt or not lt:
+                        continue
+                    for sub in ast.walk(st.value):
+                        if isinstance(sub, ast.Subscript) and isinstance(sub.value, ast.Name):
+                            at = (types.get(sub.value.id) or ptypes.get(sub.value.id) or "")
+                            if "[" not in at:
+                                continue
+                            et = at.replace("const ", "").split("[")[0].strip()
+                            if et.startswith("np.int64") or et in ("long", "Py_ssize_t"):
+                                n += 1
+                                ctx.check(lt in ("np.int64_t", "long", "long long", "Py_ssize_t", "double"), rule, site,
+                                          "`%s` (declared %s) takes a value of the %s array `%s`" % (st.targets[0].id, lt, et, sub.value.id), "narrowed:%s" % st.targets[0].id)
+    ctx.floor(rule, "kernel shape obligations", n, 60)
+
+
 def run(ctx):
+    kernel_shape(ctx)
     strided_views(ctx)
     accumulator_complete(ctx)
     build_independent(ctx)
